@@ -1,6 +1,7 @@
-(* KV/Proofs5 — iterators created inside a write transaction (levelIterator over a goleveldb snapshot iterator and a
-   batchIterator over the transaction's pending net puts), after the repair of batchIterator.Seek / Reset
-   (Model: [bi_lower], [bi_from], [it_clamp]).
+(* KV/Proofs5 — iterators created inside a write transaction AS FOUND BEFORE THE MERGING REPAIR (levelIterator over a
+   goleveldb snapshot iterator followed by a batchIterator over the transaction's pending net puts; model switch
+   [it_merge] = false, [new_iterator_gen true false], [step_iter_unmerged]), after the repair of
+   batchIterator.Seek / Reset (Model: [bi_lower], [bi_from], [it_clamp]).  The merging iterator: Proofs6.
    1. the switch: [it_clamp] is never changed by Seek / Next, [step_seek_unrepaired] = every iterator created with
       [new_iterator_gen false];
    2. closed witnesses: with the switch off Seek below the range's start lands on a pending entry outside the range,
@@ -13,25 +14,67 @@ Open Scope Z_scope.
 Require Import MW.KV.Model MW.KV.Proofs MW.KV.Proofs2.
 
 (* ------------------------------------------------------------------ the switch *)
-Lemma unclamp_new_iterator : forall s ob h a l, it_unclamp (new_iterator s ob h a l) = new_iterator_gen false s ob h a l.
+Lemma unclamp_new_iterator : forall s ob h a l, it_unclamp (new_iterator s ob h a l) = new_iterator_gen false false s ob h a l.
 Proof. reflexivity. Qed.
-Lemma unclamp_id : forall it, it_clamp it = false -> it_unclamp it = it.
+Lemma unclamp_id : forall it, it_clamp it = false -> it_merge it = false -> it_unclamp it = it.
+Proof. intros it H H2. destruct it. cbn in *. subst. reflexivity. Qed.
+Lemma unmerge_new_iterator : forall s ob h a l, it_unmerge (new_iterator s ob h a l) = new_iterator_gen true false s ob h a l.
+Proof. reflexivity. Qed.
+Lemma unmerge_id : forall it, it_merge it = false -> it_unmerge it = it.
 Proof. intros it H. destruct it. cbn in *. subst. reflexivity. Qed.
+Lemma mi_snap_next_const : forall it, it_clamp (mi_snap_next it) = it_clamp it /\ it_merge (mi_snap_next it) = it_merge it.
+Proof. intros it. unfold mi_snap_next. destruct (ldb_next it). split; reflexivity. Qed.
+Lemma mi_merge_const : forall f it, it_clamp (snd (mi_merge f it)) = it_clamp it /\ it_merge (snd (mi_merge f it)) = it_merge it.
+Proof.
+  induction f as [|f IH]; intros it; cbn [mi_merge];
+    destruct (if negb (it_end it) && negb (mi_bend it)
+              then match bcmp match mi_snap_cur it with Some (k, _) => k | None => [] end
+                              match mi_batch_cur it with Some (k, _) => k | None => [] end with
+                   | Eq => (true, true) | Lt => (true, false) | Gt => (false, true) end
+              else (negb (it_end it), negb (mi_bend it))) as [oi ob];
+    destruct (negb ob || negb (mi_deleted it)); try (split; reflexivity).
+  destruct (IH (set_mi (if oi then mi_snap_next it else it) (mi_bnext (if oi then mi_snap_next it else it)) oi ob
+                       (mi_started (if oi then mi_snap_next it else it)))) as [H1 H2].
+  rewrite H1, H2. cbn [set_mi it_clamp it_merge]. destruct oi; [apply mi_snap_next_const|split; reflexivity].
+Qed.
+Lemma iter_seek_u_clamp : forall it k, it_clamp (snd (iter_seek_u it k)) = it_clamp it /\ it_merge (snd (iter_seek_u it k)) = it_merge it.
+Proof.
+  intros it k. unfold iter_seek_u. destruct (ldb_seek it (inner_key (it_path it) k)) as [sk pos]. destruct sk.
+  - destruct (it_ro it); split; reflexivity.
+  - destruct (it_ro it); [split; reflexivity|]. unfold bi_seek.
+    destruct (bi_scan _ _ _ _ _); split; reflexivity.
+Qed.
+Lemma iter_next_u_clamp : forall it, it_clamp (snd (iter_next_u it)) = it_clamp it /\ it_merge (snd (iter_next_u it)) = it_merge it.
+Proof.
+  intros it. unfold iter_next_u. destruct (it_end it).
+  - destruct (it_ro it || bi_end it); [split; reflexivity|]. unfold bi_next. destruct (bi_scan _ _ _ _ _); split; reflexivity.
+  - destruct (ldb_next it) as [has pos]. destruct has; [split; reflexivity|].
+    cbn [set_ldb it_ro]. destruct (it_ro it || bi_end (set_ldb it pos true)); [split; reflexivity|].
+    unfold bi_next. destruct (bi_scan _ _ _ _ _); split; reflexivity.
+Qed.
+Lemma iter_seek_switches : forall it k, it_clamp (snd (iter_seek it k)) = it_clamp it /\ it_merge (snd (iter_seek it k)) = it_merge it.
+Proof.
+  intros it k. unfold iter_seek. destruct (mi_active it); [|apply iter_seek_u_clamp].
+  unfold mi_seek. destruct (ldb_seek it (inner_key (it_path it) k)) as [sk pos].
+  match goal with |- context [mi_merge ?f ?x] => destruct (mi_merge_const f x) as [H1 H2] end.
+  rewrite H1, H2. split; reflexivity.
+Qed.
+Lemma iter_next_switches : forall it, it_clamp (snd (iter_next it)) = it_clamp it /\ it_merge (snd (iter_next it)) = it_merge it.
+Proof.
+  intros it. unfold iter_next. destruct (mi_active it); [|apply iter_next_u_clamp].
+  unfold mi_next.
+  match goal with |- context [mi_merge ?f ?x] => destruct (mi_merge_const f x) as [H1 H2] end.
+  rewrite H1, H2. cbn [set_mi it_clamp it_merge].
+  destruct (mi_on_iter it || negb (mi_started it)); [apply mi_snap_next_const|split; reflexivity].
+Qed.
 Lemma iter_seek_clamp : forall it k, it_clamp (snd (iter_seek it k)) = it_clamp it.
-Proof.
-  intros it k. unfold iter_seek. destruct (ldb_seek it (inner_key (it_path it) k)) as [sk pos]. destruct sk.
-  - destruct (it_ro it); reflexivity.
-  - destruct (it_ro it); [reflexivity|]. unfold bi_seek.
-    destruct (bi_scan _ _ _ _ _); reflexivity.
-Qed.
+Proof. intros. apply iter_seek_switches. Qed.
 Lemma iter_next_clamp : forall it, it_clamp (snd (iter_next it)) = it_clamp it.
-Proof.
-  intros it. unfold iter_next. destruct (it_end it).
-  - destruct (it_ro it || bi_end it); [reflexivity|]. unfold bi_next. destruct (bi_scan _ _ _ _ _); reflexivity.
-  - destruct (ldb_next it) as [has pos]. destruct has; [reflexivity|].
-    cbn [set_ldb it_ro]. destruct (it_ro it || bi_end (set_ldb it pos true)); [reflexivity|].
-    unfold bi_next. destruct (bi_scan _ _ _ _ _); reflexivity.
-Qed.
+Proof. intros. apply iter_next_switches. Qed.
+Lemma iter_seek_merge : forall it k, it_merge (snd (iter_seek it k)) = it_merge it.
+Proof. intros. apply iter_seek_switches. Qed.
+Lemma iter_next_merge : forall it, it_merge (snd (iter_next it)) = it_merge it.
+Proof. intros. apply iter_next_switches. Qed.
 
 (* ------------------------------------------------------------------ Seek below the range's start: closed witnesses *)
 Definition exec_seek_unrepaired (st : state) (ops : list op) : state :=
@@ -106,14 +149,15 @@ Definition bi_rest (it : iter) : list (bytes * bytes) :=
   filter (bi_P (bi_start it) (bi_limit it)) (skipn (Z.to_nat (bi_ptr it + 1)) (bi_keys it)).
 
 (* a positioned batch entry is what Key() / Value() show *)
-Lemma batch_current : forall it m e, it_ro it = false -> it_end it = true -> nth_error (bi_keys it) m = Some e -> fst e <> [] ->
+Lemma batch_current : forall it m e, it_ro it = false -> it_merge it = false -> it_end it = true -> nth_error (bi_keys it) m = Some e -> fst e <> [] ->
   forall st, let it' := set_batch it (Z.of_nat m) st in
   iter_key it' = Some (skipn (it_pl it) (fst e)) /\ iter_value it' = snd e.
 Proof.
-  intros it m e Hro Hend Hnth Hne st it'.
+  intros it m e Hro Hm Hend Hnth Hne st it'.
   assert (Hlt : (m < length (bi_keys it))%nat) by (apply nth_error_Some; congruence).
   assert (Hraw : iter_raw it' = Some e).
-  { unfold iter_raw, it'. cbn [set_batch it_end it_ro]. rewrite Hend, Hro. cbn [negb andb].
+  { rewrite iter_raw_off by (apply mi_active_unmerged; exact Hm).
+    unfold iter_raw_u, it'. cbn [set_batch it_end it_ro]. rewrite Hend, Hro. cbn [negb andb].
     unfold bi_end, bi_len. cbn [set_batch bi_keys bi_ptr].
     replace (Z.of_nat (length (bi_keys it)) <=? Z.of_nat m) with false by (symmetry; apply Z.leb_gt; lia).
     cbn [negb]. unfold nth_entry. replace (Z.of_nat m <? 0) with false by (symmetry; apply Z.ltb_ge; lia).
@@ -123,11 +167,11 @@ Proof.
 Qed.
 
 (* phase 2 — the snapshot iterator is exhausted: Next() walks the pending net puts of [start, limit) after ptr *)
-Lemma drain_batch : forall fuel it, it_ro it = false -> it_end it = true -> -1 <= bi_ptr it -> bi_start it <> [] ->
+Lemma drain_batch : forall fuel it, it_ro it = false -> it_merge it = false -> it_end it = true -> -1 <= bi_ptr it -> bi_start it <> [] ->
   (length (bi_rest it) < fuel)%nat -> drain fuel it = map (strip (it_pl it)) (bi_rest it).
 Proof.
-  induction fuel as [|fuel IH]; intros it Hro Hend Hptr Hst Hlen; [lia|].
-  cbn [drain]. unfold iter_next. rewrite Hend, Hro. cbn [orb]. unfold bi_end, bi_len.
+  induction fuel as [|fuel IH]; intros it Hro Hm Hend Hptr Hst Hlen; [lia|].
+  cbn [drain]. rewrite iter_next_off by (apply mi_active_unmerged; exact Hm). unfold iter_next_u. rewrite Hend, Hro. cbn [orb]. unfold bi_end, bi_len.
   destruct (Z.of_nat (length (bi_keys it)) <=? bi_ptr it) eqn:El.
   - apply Z.leb_le in El. unfold bi_rest. rewrite skipn_all2 by lia. reflexivity.
   - apply Z.leb_gt in El. unfold bi_next.
@@ -137,39 +181,41 @@ Proof.
     + destruct Hs as [m [e [Ej [Hnth [HP Hf]]]]]. cbn [Z.add] in Ej. subst j.
       assert (Hne : fst e <> []).
       { unfold bi_P, bi_in in HP. apply andb_true_iff in HP. destruct HP as [HP _]. eapply ble_nonempty; eauto. }
-      destruct (batch_current it m e Hro Hend Hnth Hne (bi_start it)) as [Hk Hv].
+      destruct (batch_current it m e Hro Hm Hend Hnth Hne (bi_start it)) as [Hk Hv].
       rewrite Hk, Hv. unfold bi_rest. rewrite Hf. cbn [map]. unfold strip at 1. f_equal.
       set (it' := set_batch it (Z.of_nat m) (bi_start it)) in *.
       assert (Hr : bi_rest it' = filter (bi_P (bi_start it) (bi_limit it)) (skipn (S m) (bi_keys it))).
       { unfold bi_rest, it'. cbn [set_batch bi_start bi_limit bi_ptr bi_keys]. f_equal. f_equal. lia. }
-      rewrite (IH it'); [rewrite Hr; reflexivity|exact Hro|exact Hend|unfold it'; cbn [set_batch bi_ptr]; lia|exact Hst|].
+      rewrite (IH it'); [rewrite Hr; reflexivity|exact Hro|exact Hm|exact Hend|unfold it'; cbn [set_batch bi_ptr]; lia|exact Hst|].
       rewrite Hr. unfold bi_rest in Hlen. rewrite Hf in Hlen. cbn [length] in Hlen. lia.
     + unfold bi_rest. rewrite Hs. reflexivity.
 Qed.
 
 (* phase 1 — the rest of the snapshot entries, then the pending net puts of [start, limit) after ptr *)
-Lemma drain_write : forall fuel it, it_ro it = false -> it_end it = false -> -1 <= bi_ptr it -> bi_start it <> [] ->
+Lemma drain_write : forall fuel it, it_ro it = false -> it_merge it = false -> it_end it = false -> -1 <= bi_ptr it -> bi_start it <> [] ->
   Forall (fun e => fst e <> []) (it_ents it) ->
   (length (it_rest it) + length (bi_rest it) < fuel)%nat ->
   drain fuel it = map (strip (it_pl it)) (it_rest it) ++ map (strip (it_pl it)) (bi_rest it).
 Proof.
-  induction fuel as [|fuel IH]; intros it Hro Hend Hptr Hst Hne Hlen; [lia|].
+  induction fuel as [|fuel IH]; intros it Hro Hm Hend Hptr Hst Hne Hlen; [lia|].
+  assert (Hoff : forall p e, mi_active (set_ldb it p e) = false) by (intros; apply mi_active_unmerged; exact Hm).
+  assert (Hoff0 : mi_active it = false) by (apply mi_active_unmerged; exact Hm).
   (* when the snapshot iterator has nothing more, Next() is Next() of the iterator with iterEnd set *)
   assert (Hexh : ldb_next it = (false, EOI) -> it_rest it = [] ->
                  drain (S fuel) it = map (strip (it_pl it)) (it_rest it) ++ map (strip (it_pl it)) (bi_rest it)).
   { intros Hn Hr. set (it1 := set_ldb it EOI true).
     assert (E : drain (S fuel) it = drain (S fuel) it1).
-    { cbn [drain]. unfold iter_next at 1. rewrite Hend, Hn. fold it1.
-      unfold iter_next. replace (it_end it1) with true by reflexivity. reflexivity. }
+    { cbn [drain]. rewrite (iter_next_off it Hoff0). unfold iter_next_u at 1. rewrite Hend, Hn. fold it1.
+      rewrite (iter_next_off it1 (Hoff EOI true)). unfold iter_next_u. replace (it_end it1) with true by reflexivity. reflexivity. }
     rewrite E, Hr. cbn [map app]. rewrite Hr in Hlen. cbn [length] in Hlen.
     apply (drain_batch (S fuel) it1); auto. }
   unfold it_rest in *. destruct (it_pos it) as [|n|] eqn:Epos.
   - destruct (it_ents it) as [|e r] eqn:Eents.
     + apply Hexh; [unfold ldb_next; rewrite Epos, Eents; reflexivity|reflexivity].
-    + clear Hexh. cbn [drain]. unfold iter_next. rewrite Hend. unfold ldb_next. rewrite Epos, Eents.
+    + clear Hexh. cbn [drain]. rewrite (iter_next_off it Hoff0). unfold iter_next_u. rewrite Hend. unfold ldb_next. rewrite Epos, Eents.
       set (it' := set_ldb it (At 0%nat) false).
       assert (Hk : iter_key it' = Some (skipn (it_pl it) (fst e)) /\ iter_value it' = snd e).
-      { unfold iter_key, iter_value, iter_raw, it'. cbn. rewrite Eents. cbn. destruct e as [k v]. cbn.
+      { unfold iter_key, iter_value. unfold it'. rewrite (iter_raw_off _ (Hoff _ _)). unfold iter_raw_u. cbn. rewrite Eents. cbn. destruct e as [k v]. cbn.
         inversion Hne as [|? ? Hk _]; subst. cbn in Hk. destruct k; [congruence|]. auto. }
       destruct Hk as [Hk Hv]. rewrite Hk, Hv. cbn [map app]. unfold strip at 1. f_equal.
       rewrite (IH it'); unfold it'; cbn [set_ldb it_ro it_end bi_ptr bi_start it_ents it_pl]; auto.
@@ -178,12 +224,13 @@ Proof.
       * unfold it_rest, bi_rest in *. cbn [set_ldb it_pos it_ents bi_start bi_limit bi_ptr bi_keys]. rewrite Eents.
         cbn [skipn length] in *. lia.
   - destruct (S n <? length (it_ents it))%nat eqn:El.
-    + clear Hexh. cbn [drain]. unfold iter_next. rewrite Hend. unfold ldb_next. rewrite Epos, El.
+    + clear Hexh. cbn [drain]. rewrite (iter_next_off it Hoff0). unfold iter_next_u. rewrite Hend. unfold ldb_next. rewrite Epos, El.
       apply Nat.ltb_lt in El. destruct (nth_error (it_ents it) (S n)) as [e|] eqn:En;
         [|apply nth_error_None in En; lia].
       set (it' := set_ldb it (At (S n)) false).
       assert (Hk : iter_key it' = Some (skipn (it_pl it) (fst e)) /\ iter_value it' = snd e).
-      { unfold iter_key, iter_value, iter_raw, it'. cbn [set_ldb it_end it_pos it_ents negb it_pl]. rewrite En.
+      { unfold iter_key, iter_value. unfold it'. rewrite (iter_raw_off _ (Hoff _ _)). unfold iter_raw_u.
+        cbn [set_ldb it_end it_pos it_ents negb it_pl]. rewrite En.
         destruct e as [k v]. cbn. rewrite Forall_forall in Hne. apply nth_error_In in En. apply Hne in En. cbn in En.
         destruct k; [congruence|]. auto. }
       destruct Hk as [Hk Hv]. rewrite Hk, Hv. rewrite (skipn_nth_error _ _ _ En). cbn [map app]. unfold strip at 1. f_equal.
@@ -209,7 +256,7 @@ Proof.
   destruct (blt ik (bi_lower it)) eqn:E; [|exact H]. intros E0. rewrite E0, blt_nil_r in E. discriminate.
 Qed.
 
-Lemma seek_write : forall it key fuel, it_ro it = false -> it_clamp it = true -> keys_sorted (it_ents it) ->
+Lemma seek_write : forall it key fuel, it_ro it = false -> it_merge it = false -> it_clamp it = true -> keys_sorted (it_ents it) ->
   Forall (fun e => fst e <> []) (it_ents it) ->
   let ik := inner_key (it_path it) key in
   let ge := filter (fun e => ble ik (fst e)) (it_ents it) in
@@ -219,13 +266,14 @@ Lemma seek_write : forall it key fuel, it_ro it = false -> it_clamp it = true ->
   iter_current (snd (iter_seek it key)) ++ drain fuel (snd (iter_seek it key))
     = map (strip (it_pl it)) ge ++ map (strip (it_pl it)) gb.
 Proof.
-  intros it key fuel Hro Hc Hs Hne ik ge gb Hfuel.
+  intros it key fuel Hro Hm Hc Hs Hne ik ge gb Hfuel.
+  assert (Hoff : forall p e, mi_active (set_ldb it p e) = false) by (intros; apply mi_active_unmerged; exact Hm).
   assert (Hik : ik <> []) by (unfold ik, inner_key; destruct (it_path it); discriminate).
   assert (Hpos : bi_pos it ik <> []) by (apply bi_pos_nonempty; exact Hik).
   assert (HG : forall l, filter (bi_P (bi_pos it ik) (bi_limit it)) l = filter (bi_G it ik) l).
   { intros l. apply filter_ext. intros e. apply bi_P_from. exact Hc. }
   assert (Hgb : (length gb <= length (bi_keys it))%nat) by apply filter_len.
-  unfold iter_seek, ldb_seek. fold ik.
+  rewrite iter_seek_off by (apply mi_active_unmerged; exact Hm). unfold iter_seek_u, ldb_seek. fold ik.
   pose proof (find_ge_spec ik (it_ents it) 0%nat Hs) as Hf. fold ge in Hf.
   destruct (find_ge ik (it_ents it) 0%nat) as [j|].
   - destruct Hf as [n [Ej [Hn Hsk]]]. cbn in Ej. subst j. rewrite Hro. cbn [fst snd].
@@ -234,7 +282,8 @@ Proof.
     + rewrite <- Hsk. split; [discriminate|reflexivity].
     + set (it' := set_batch (set_ldb it (At n) false) (-1) (bi_pos it ik)).
       assert (Hk : iter_current it' = [strip (it_pl it) e]).
-      { unfold iter_current, iter_key, iter_value, iter_raw, it'.
+      { unfold iter_current, iter_key, iter_value.
+        rewrite (iter_raw_off it') by (apply mi_active_unmerged; exact Hm). unfold iter_raw_u, it'.
         cbn [set_batch set_ldb it_end it_pos it_ents negb it_pl]. rewrite En.
         destruct e as [k v]. rewrite Forall_forall in Hne. apply nth_error_In in En. apply Hne in En. cbn in En.
         destruct k; [congruence|]. reflexivity. }
@@ -245,6 +294,7 @@ Proof.
       rewrite Hk. rewrite (drain_write fuel it').
       * rewrite Hr1, Hr2. replace (it_pl it') with (it_pl it) by reflexivity. rewrite <- Hsk. reflexivity.
       * exact Hro.
+      * exact Hm.
       * reflexivity.
       * unfold it'. cbn [set_batch bi_ptr]. lia.
       * exact Hpos.
@@ -254,6 +304,7 @@ Proof.
     set (it1 := set_ldb it EOI true).
     assert (Hro1 : it_ro it1 = false) by exact Hro.
     assert (Hend1 : it_end it1 = true) by reflexivity.
+    assert (Hm1 : it_merge it1 = false) by exact Hm.
     unfold bi_seek. replace (bi_pos it1 ik) with (bi_pos it ik) by reflexivity.
     replace (bi_limit it1) with (bi_limit it) by reflexivity. replace (bi_keys it1) with (bi_keys it) by reflexivity.
     pose proof (bi_scan_spec (bi_pos it ik) (bi_limit it) (bi_keys it) 0 0 0%nat eq_refl) as Hsc.
@@ -263,7 +314,7 @@ Proof.
       rewrite HG in Hfl.
       assert (Hne' : fst e <> []).
       { unfold bi_P, bi_in in HP. apply andb_true_iff in HP. destruct HP as [HP _]. eapply ble_nonempty; eauto. }
-      destruct (batch_current it1 m e Hro1 Hend1 Hnth Hne' (bi_pos it ik)) as [Hk Hv].
+      destruct (batch_current it1 m e Hro1 Hm1 Hend1 Hnth Hne' (bi_pos it ik)) as [Hk Hv].
       set (it' := set_batch it1 (Z.of_nat m) (bi_pos it ik)) in *.
       split; [rewrite Hfl; split; [discriminate|reflexivity]|].
       unfold iter_current. rewrite Hk, Hv.
@@ -274,6 +325,7 @@ Proof.
       rewrite (drain_batch fuel it').
       * rewrite Hr, Hfl. reflexivity.
       * exact Hro1.
+      * exact Hm1.
       * exact Hend1.
       * unfold it'. cbn [set_batch bi_ptr]. lia.
       * exact Hpos.
@@ -284,11 +336,13 @@ Proof.
       { unfold bi_rest, it'. cbn [set_batch bi_ptr bi_keys]. unfold bi_len. rewrite skipn_all2; [reflexivity|].
         replace (bi_keys it1) with (bi_keys it) by reflexivity. lia. }
       assert (Hcur : iter_current it' = []).
-      { unfold iter_current, iter_key, iter_raw, it'. cbn [set_batch it_end it_ro]. rewrite Hend1, Hro1. cbn [negb andb].
+      { unfold iter_current, iter_key. rewrite (iter_raw_off it') by (apply mi_active_unmerged; exact Hm).
+        unfold iter_raw_u, it'. cbn [set_batch it_end it_ro]. rewrite Hend1, Hro1. cbn [negb andb].
         unfold bi_end, bi_len. cbn [set_batch bi_keys bi_ptr]. rewrite Z.leb_refl. reflexivity. }
       rewrite Hcur. rewrite (drain_batch fuel it').
       * rewrite Hr. reflexivity.
       * exact Hro1.
+      * exact Hm1.
       * exact Hend1.
       * unfold it'. cbn [set_batch bi_ptr]. unfold bi_len. lia.
       * exact Hpos.
@@ -368,7 +422,7 @@ Proof. intros path k H. unfold inner_key in H. apply Forall_app in H. destruct H
    Seek answers true iff there is any. *)
 Lemma seek_write_tx : forall s b h start limit key,
   keys_sorted s -> keys_bytes s -> batch_wf b -> keys_bytes (b_puts b) -> bytes_ok (h_path h) ->
-  let r := iter_seek (new_iterator s (Some b) h start limit) key in
+  let r := iter_seek (new_iterator_gen true false s (Some b) h start limit) key in
   let out := iter_current (snd r) ++ drain (S (length s + length (b_puts b))) (snd r) in
   exists A B, out = A ++ B /\
     (forall k v, In (k, v) A <->
@@ -382,7 +436,7 @@ Proof.
   destruct (range_ents_char s h start limit Hs Hb Hp) as [He [Hin Hsorted]].
   set (it0 := new_iterator s None h start limit) in *.
   set (X := map (strip (it_pl it0)) (it_ents it0)) in *.
-  set (it := new_iterator s (Some b) h start limit) in *.
+  set (it := new_iterator_gen true false s (Some b) h start limit) in *.
   set (path := h_path h) in *.
   set (ik := inner_key path key).
   set (istart := inner_key path start).
@@ -398,7 +452,7 @@ Proof.
   assert (Hne : Forall (fun e : bytes * bytes => fst e <> []) (it_ents it)) by (rewrite Eents, He; apply inner_ents_keys_nonempty).
   assert (Hl1 : (length (it_ents it) <= length s)%nat) by (apply filter_len).
   assert (Hl2 : (length (bi_keys it) <= length (b_puts b))%nat) by (rewrite Ekeys; apply net_puts_len).
-  destruct (seek_write it key (S (length s + length (b_puts b))) eq_refl eq_refl Hsorted_e Hne ltac:(lia)) as [Hb1 Hd].
+  destruct (seek_write it key (S (length s + length (b_puts b))) eq_refl eq_refl eq_refl Hsorted_e Hne ltac:(lia)) as [Hb1 Hd].
   rewrite Epath in Hb1, Hd. fold ik in Hb1, Hd. rewrite Epl in Hd.
   set (A := filter (fun e : bytes * bytes => ble key (fst e)) X).
   set (gb := filter (bi_G it ik) (bi_keys it)) in *.
@@ -449,7 +503,7 @@ Qed.
    committed value: write_iter_not_view_refuted.) *)
 Lemma seek_write_tx_view : forall s b h start limit key,
   keys_sorted s -> keys_bytes s -> batch_wf b -> keys_bytes (b_puts b) -> bytes_ok (h_path h) ->
-  let r := iter_seek (new_iterator s (Some b) h start limit) key in
+  let r := iter_seek (new_iterator_gen true false s (Some b) h start limit) key in
   let out := iter_current (snd r) ++ drain (S (length s + length (b_puts b))) (snd r) in
   let sees k v := s_get (inner_key (h_path h) k) (commit s b) = Some v /\ user_range start limit k = true /\ ble key k = true in
   (forall k v, sees k v -> In (k, v) out) /\
@@ -491,16 +545,24 @@ Qed.
 Definition stale_ops : list op :=
   [OBegin true; OCreateTop 0 [97]; OPut 0 [107] [118]; OPut 0 [109] [119]; OCommit;
    OBegin true; OTop true 0 [97]; ODel 0 [107]; OPut 0 [109] [120]; OPut 0 [98] [121]; OIter 0 0 0 [] []].
+Definition exec_unmerged (st : state) (ops : list op) : state :=
+  fold_left (fun st o => fst (step_iter_unmerged st o)) ops st.
+Definition run_unmerged (ops : list op) : state := exec_unmerged init_state ops.
 Lemma write_iter_not_view_refuted :
   Forall op_bytes stale_ops /\
-  snd (step (run stale_ops) (OGet 0 [107])) = RNil /\
-  snd (step (run stale_ops) (OGet 0 [109])) = RVal [120] /\
-  snd (step (run stale_ops) (OPfx 0 [])) = REntries [([109], [120]); ([98], [121])] /\
-  snd (step (run stale_ops) (OSeek 0 [])) = RIter true (Some [107]) [118] /\
-  snd (step (run (stale_ops ++ [OSeek 0 []])) (ONext 0)) = RIter true (Some [109]) [119] /\
-  snd (step (run (stale_ops ++ [OSeek 0 []; ONext 0])) (ONext 0)) = RIter true (Some [98]) [121] /\
-  snd (step (run (stale_ops ++ [OSeek 0 []; ONext 0; ONext 0])) (ONext 0)) = RIter true (Some [109]) [120] /\
-  snd (step (run (stale_ops ++ [OSeek 0 []; ONext 0; ONext 0; ONext 0])) (ONext 0)) = RIter false None [].
+  snd (step_iter_unmerged (run_unmerged stale_ops) (OGet 0 [107])) = RNil /\
+  snd (step_iter_unmerged (run_unmerged stale_ops) (OGet 0 [109])) = RVal [120] /\
+  snd (step_iter_unmerged (run_unmerged stale_ops) (OPfx 0 [])) = REntries [([109], [120]); ([98], [121])] /\
+  snd (step_iter_unmerged (run_unmerged stale_ops) (OSeek 0 [])) = RIter true (Some [107]) [118] /\
+  snd (step_iter_unmerged (run_unmerged (stale_ops ++ [OSeek 0 []])) (ONext 0)) = RIter true (Some [109]) [119] /\
+  snd (step_iter_unmerged (run_unmerged (stale_ops ++ [OSeek 0 []; ONext 0])) (ONext 0)) = RIter true (Some [98]) [121] /\
+  snd (step_iter_unmerged (run_unmerged (stale_ops ++ [OSeek 0 []; ONext 0; ONext 0])) (ONext 0)) = RIter true (Some [109]) [120] /\
+  snd (step_iter_unmerged (run_unmerged (stale_ops ++ [OSeek 0 []; ONext 0; ONext 0; ONext 0])) (ONext 0)) = RIter false None [] /\
+  (* the merging iterator on the same history: b = y, m = x, end *)
+  snd (step (run stale_ops) (OSeek 0 [])) = RIter true (Some [98]) [121] /\
+  snd (step (run (stale_ops ++ [OSeek 0 []])) (ONext 0)) = RIter true (Some [109]) [120] /\
+  snd (step (run (stale_ops ++ [OSeek 0 []; ONext 0])) (ONext 0)) = RIter false None [] /\
+  snd (step (run (stale_ops ++ [OIter 1 0 0 [] []])) (ONext 1)) = RIter true (Some [98]) [121].
 Proof.
   split; [unfold stale_ops; repeat (apply Forall_cons; [cbn [op_bytes]; solve_bytes|]); apply Forall_nil|].
   vm_compute. repeat split.
